@@ -80,6 +80,8 @@ def user_code_raised(tb_text):
     """Did the exception originate in the checked module's own code (a plugin / CustomCheck /
     __getattr__ defined by the snippet), called back by pyanalyze?"""
     files = re.findall(r'File "([^"]+)", line \d+, in ', tb_text)
+    if re.search(r"\.can_(be_)?assign(ed)?\(\) (missing|takes) ", tb_text):
+        return True  # a CustomCheck defined by the snippet with a (mutated) wrong signature
     if not files:
         return False
     last = files[-1]
@@ -91,6 +93,8 @@ def frame_of(tb_text):
     exc = re.findall(r"^(\w+(?:Error|Exception|Warning)?)\b.*$", tb_text.strip().splitlines()[-1]) if tb_text.strip() else []
     m = re.search(r"Internal error: (\w+)\(", tb_text)
     name = m.group(1) if m else (exc[0] if exc else "?")
+    if name == "RecursionError":
+        return name, "unbounded-recursion"  # the innermost frame of a stack overflow is arbitrary
     return name, (":".join(frames[-1]) if frames else "?")
 
 
